@@ -793,3 +793,504 @@ Proof.
   cbn [drop_ids s_mode s_uid s_gid s_size s_atime s_atime_v s_mtime s_mtime_v]. rewrite Hnr.
   destruct (s_uid sa), (s_gid sa); reflexivity.
 Qed.
+
+(* ====================================================================================================== *)
+(* 4. C11: the owner fields of the tree                                                                   *)
+(* ====================================================================================================== *)
+(* in-place updates that keep kind and symlink target do not change any resolution *)
+Definition keeps_shape (g : obj -> obj) : Prop := forall o, o_kind (g o) = o_kind o /\ o_target (g o) = o_target o.
+Definition upd_res (k : path) (g : obj -> obj) (r : walk_res) : walk_res :=
+  match r with WFound q o => WFound q (if path_eqb q k then g o else o) | _ => r end.
+
+Lemma fs_get_upd' f k g q :
+  fs_get (fs_upd f k g) q = option_map (fun o => if path_eqb q k then g o else o) (fs_get f q).
+Proof. rewrite fs_get_upd. destruct (path_eqb q k); [reflexivity|]. destruct (fs_get f q); reflexivity. Qed.
+
+Lemma walk_upd f k g : keeps_shape g -> forall fuel links canon todo follow,
+  walk fuel links (fs_upd f k g) canon todo follow = upd_res k g (walk fuel links f canon todo follow).
+Proof.
+  intros K. induction fuel as [|fuel IH]; intros links canon todo follow; cbn [walk]; [reflexivity|].
+  rewrite fs_get_upd'. destruct (fs_get f canon) as [cur|]; cbn [option_map]; [|reflexivity].
+  destruct todo as [|c rest]; [reflexivity|].
+  assert (Ek : o_kind (if path_eqb canon k then g cur else cur) = o_kind cur).
+  { destruct (path_eqb canon k); [apply K|reflexivity]. }
+  rewrite Ek. destruct (negb (kind_eqb (o_kind cur) KDir)); [reflexivity|].
+  destruct (is_dotdot c); [apply IH|].
+  rewrite fs_get_upd'. destruct (fs_get f (canon ++ [c])) as [ch|]; cbn [option_map]; [|destruct rest; reflexivity].
+  assert (Ec : o_kind (if path_eqb (canon ++ [c]) k then g ch else ch) = o_kind ch
+            /\ o_target (if path_eqb (canon ++ [c]) k then g ch else ch) = o_target ch).
+  { destruct (path_eqb (canon ++ [c]) k); [apply K|split; reflexivity]. }
+  destruct Ec as [Ec Et]. rewrite Ec, Et.
+  destruct (kind_eqb (o_kind ch) KLink && (negb match rest with [] => true | _ => false end || follow)).
+  - destruct links; [reflexivity|apply IH].
+  - destruct rest; [reflexivity|apply IH].
+Qed.
+Lemma mtc_upd f k g : keeps_shape g -> max_target_comps (fs_upd f k g) = max_target_comps f.
+Proof.
+  intros K. induction f as [|[q o] r IH]; [reflexivity|]. unfold max_target_comps in *. cbn [fs_upd map fold_right fst snd].
+  fold (fs_upd r k g). rewrite IH. destruct (path_eqb k q); cbn [snd]; [rewrite (proj2 (K o))|]; reflexivity.
+Qed.
+Lemma resolve_upd f k g p follow : keeps_shape g -> resolve (fs_upd f k g) p follow = upd_res k g (resolve f p follow).
+Proof. intros K. unfold resolve, walk_fuel. rewrite (mtc_upd f k g K). apply walk_upd. exact K. Qed.
+
+Lemma chown_obj_shape u g : keeps_shape (chown_obj u g). Proof. intros o. split; reflexivity. Qed.
+
+(* after a successful Chown / Lchown, Stat / Lstat of the same path reports exactly that owner and group *)
+Lemma be_meta_chown_stat f p follow u g :
+  snd (be_meta f p follow (chown_obj u g)) = Ok tt ->
+  exists fi, be_stat (fst (be_meta f p follow (chown_obj u g))) p follow = Ok fi /\ fi_uid fi = u /\ fi_gid fi = g.
+Proof.
+  unfold be_meta. destruct (resolve f p follow) as [q o| |] eqn:R; cbn [fst snd]; try discriminate. intros _.
+  unfold be_stat. rewrite (resolve_upd f q (chown_obj u g) p follow (chown_obj_shape u g)), R. cbn [upd_res].
+  rewrite path_eqb_refl. eexists. split; [reflexivity|]. split; reflexivity.
+Qed.
+
+Lemma invalidate_for_new_fs s d p : fs (invalidate_for_new s d p) = fs s.
+Proof. unfold invalidate_for_new, dc_invalidate. destruct (dir_on _); reflexivity. Qed.
+
+Lemma unit_res_ok (r : res unit) u : r = Ok u -> r = Ok tt.
+Proof. destruct u. auto. Qed.
+
+(* the log only grows *)
+Definition MON (s s' : srv) : Prop := forall b, In b (blog s) -> In b (blog s').
+Lemma MON_refl s : MON s s. Proof. intros b H. exact H. Qed.
+Lemma MON_trans a b c : MON a b -> MON b c -> MON a c. Proof. intros A B x H. apply B, A, H. Qed.
+Lemma MON_SB s s' : SB s s' -> MON s s'. Proof. intros E b H. rewrite E. exact H. Qed.
+Lemma MON_logc s c : MON s (logc s c). Proof. intros b H. right. exact H. Qed.
+Lemma MON_srv_lookup s p : MON s (fst (srv_lookup s p)).
+Proof.
+  unfold srv_lookup. destruct (ac_get s p) as [s1 x] eqn:E.
+  assert (M1 : MON s s1) by (pose proof (SB_ac_get s p) as H; rewrite E in H; apply MON_SB; exact H).
+  destruct x as [[a|]|]; cbn [fst]; try exact M1.
+  unfold do_lstat. destruct (be_stat (fs s1) p false) as [fi|e]; cbn [fst].
+  - eapply MON_trans; [exact M1|]. eapply MON_trans; [apply MON_logc|]. apply MON_SB. reflexivity.
+  - eapply MON_trans; [exact M1|]. eapply MON_trans; [apply MON_logc|]. destruct e; try apply MON_refl.
+    apply MON_SB, SB_ac_put_negative.
+Qed.
+Lemma MON_srv_getattr s p u g : MON s (fst (srv_getattr s p u g)).
+Proof.
+  unfold srv_getattr. destruct (ac_get s p) as [s1 x] eqn:E.
+  assert (M1 : MON s s1) by (pose proof (SB_ac_get s p) as H; rewrite E in H; apply MON_SB; exact H).
+  unfold do_lstat. destruct (be_stat (fs s1) p false) as [fi|e]; cbn [fst].
+  - eapply MON_trans; [exact M1|]. eapply MON_trans; [apply MON_logc|]. apply MON_SB. reflexivity.
+  - eapply MON_trans; [exact M1|]. apply MON_logc.
+Qed.
+Lemma MON_getattr_h s h p : MON s (fst (getattr_h s h p)).
+Proof. unfold getattr_h. destruct (node_get s h); apply MON_srv_getattr. Qed.
+Lemma MON_created_reply s h d p a dpre : MON s (fst (created_reply s h d p a dpre)).
+Proof.
+  unfold created_reply. pose proof (MON_getattr_h s h d) as M. destruct (getattr_h s h d) as [s1 [dp|e]]; cbn [fst] in *; [|exact M].
+  pose proof (SB_alloc s1 p a) as A. destruct (alloc s1 p a) as [s2 fh]. cbn [fst] in *.
+  eapply MON_trans; [exact M|apply MON_SB; exact A].
+Qed.
+Lemma MON_invalidate_for_new s d p : MON s (invalidate_for_new s d p).
+Proof. apply MON_SB. unfold SB, invalidate_for_new, dc_invalidate. destruct (dir_on _); reflexivity. Qed.
+
+(* AbsfsNFS.Create: when it succeeds, a Chown with the given ids is in the log and Stat of the new path reports
+   exactly that owner and group *)
+Lemma srv_create_owner s d n perm uid gid s' a :
+  srv_create s d n perm uid gid = (s', Ok a) ->
+  In (bc2 BChown (d ++ [n]) [] uid gid) (blog s') /\
+  exists fi, be_stat (fs s') (d ++ [n]) true = Ok fi /\ fi_uid fi = uid /\ fi_gid fi = gid.
+Proof.
+  unfold srv_create. destruct (ro (conf s)); [discriminate|]. destruct (negb (sanitize_ok d n)); [discriminate|].
+  cbv zeta. destruct (snd (be_create (fs s) (d ++ [n]) (now s))) as [q|e]; [|discriminate].
+  match goal with |- context [match snd ?r with Ok _ => _ | Err _ => _ end] => destruct (snd r) as [u1|e] eqn:E2; [|discriminate] end.
+  match goal with |- context [match snd ?r with Ok _ => _ | Err _ => _ end] => destruct (snd r) as [u2|e] eqn:E3; [|discriminate] end.
+  intros E.
+  match type of E with srv_lookup (invalidate_for_new ?s3 _ _) _ = _ => set (sx := s3) in * end.
+  pose proof (srv_lookup_ro (invalidate_for_new sx d (d ++ [n])) (d ++ [n])) as R. rewrite E in R. cbn [fst] in R.
+  pose proof (MON_srv_lookup (invalidate_for_new sx d (d ++ [n])) (d ++ [n])) as M. rewrite E in M. cbn [fst] in M.
+  split.
+  - apply M, MON_invalidate_for_new. unfold sx, lift_unit. cbn [fst blog logc]. left. reflexivity.
+  - rewrite (RO_fs _ _ R), invalidate_for_new_fs. unfold sx, lift_unit. cbn [fst snd fs logc].
+    unfold lift_unit in E3. cbn [snd] in E3. apply unit_res_ok in E3. apply be_meta_chown_stat in E3. exact E3.
+Qed.
+
+Lemma map_error_nonzero e : map_error e <> st_ok.
+Proof. destruct e; vm_compute; discriminate. Qed.
+
+(* CREATE of a name that does not exist yet: on NFS3_OK the Chown with the effective ids is in the log and
+   Stat of the new path reports them *)
+Lemma step_create_owner s c h (n : name) how sa d da e :
+  str_ok n = true -> lookup_node s h = Some (d, da) -> be_stat (fs s) (d ++ [n]) false = Err e ->
+  let r := step s c (RCreate h n how sa) in
+  let u := eff_uid c ((how =? 0) || (how =? 1)) sa in
+  let g := eff_gid c ((how =? 0) || (how =? 1)) sa in
+  ob_status (snd r) = st_ok ->
+  In (bc2 BChown (d ++ [n]) [] u g) (blog (fst r)) /\
+  exists fi, be_stat (fs (fst r)) (d ++ [n]) true = Ok fi /\ fi_uid fi = u /\ fi_gid fi = g.
+Proof.
+  intros Hs Hl Hp. cbv zeta. rewrite step_create_eq by exact Hs. unfold handle_create.
+  destruct (ro (conf (clear_log s))); [intros F; exfalso; revert F; vm_compute; discriminate|].
+  destruct (negb (validate_name n =? st_ok)) eqn:Hn.
+  { intros F. exfalso. apply negb_true_iff, N.eqb_neq in Hn. exact (Hn F). }
+  cbv zeta. fold (eff_uid c ((how =? 0) || (how =? 1)) sa). fold (eff_gid c ((how =? 0) || (how =? 1)) sa).
+  match goal with |- context [if ?b then (_, fail_wcc NFSERR_INVAL) else _] => destruct b end;
+    [intros F; exfalso; revert F; vm_compute; discriminate|].
+  change (lookup_node (clear_log s) h) with (lookup_node s h). rewrite Hl.
+  destruct (negb (kind_eqb (na_kind da) KDir)); [intros F; exfalso; revert F; vm_compute; discriminate|].
+  destruct (getattr_h (clear_log s) h d) as [s1 pre] eqn:E1.
+  pose proof (getattr_h_ro (clear_log s) h d) as R1. rewrite E1 in R1. cbn [fst] in R1.
+  destruct pre as [dpre|e1]; [|intros F; exfalso; exact (map_error_nonzero _ F)].
+  unfold do_lstat. rewrite (RO_fs _ _ R1). change (fs (clear_log s)) with (fs s). rewrite Hp.
+  match goal with |- context [srv_create ?a ?b ?c ?d ?e ?f] => destruct (srv_create a b c d e f) as [s3 [a0|e3]] eqn:E3 end.
+  2:{ intros F. exfalso. destruct (failed_reply_obs s3 h d (map_error e3) dpre) as [_ B]. rewrite B in F.
+      exact (map_error_nonzero _ F). }
+  intros _. destruct (srv_create_owner _ _ _ _ _ _ _ _ E3) as [I (fi & A & B & C)].
+  split.
+  - apply MON_created_reply. exact I.
+  - rewrite (RO_fs _ _ (created_reply_ro s3 h d (d ++ [n]) a0 dpre)). exists fi. auto.
+Qed.
+
+(* ---------- adding a new entry: the path that was missing now resolves to it ---------- *)
+Lemma fs_del_absent f q : fs_get f q = None -> fs_del f q = f.
+Proof.
+  induction f as [|[k o] r IH]; [reflexivity|]. cbn [fs_get fs_del filter fst].
+  destruct (path_eqb q k); [discriminate|]. intros H. cbn [negb]. f_equal. apply IH. exact H.
+Qed.
+Lemma fs_get_set_other f q o p x : fs_get f q = None -> fs_get f p = Some x -> fs_get (fs_set f q o) p = Some x.
+Proof.
+  intros A B. rewrite fs_get_set. destruct (path_eqb p q) eqn:E; [|exact B].
+  apply path_eqb_eq in E. subst p. rewrite A in B. discriminate B.
+Qed.
+Lemma walk_missing_get f follow : forall fuel links canon todo q,
+  walk fuel links f canon todo follow = WMissing q -> fs_get f q = None.
+Proof.
+  induction fuel as [|fuel IH]; intros links canon todo q; cbn [walk]; [discriminate|].
+  destruct (fs_get f canon) as [cur|] eqn:Ec; [|discriminate].
+  destruct todo as [|c rest]; [discriminate|].
+  destruct (negb (kind_eqb (o_kind cur) KDir)); [discriminate|].
+  destruct (is_dotdot c); [apply IH|].
+  destruct (fs_get f (canon ++ [c])) as [ch|] eqn:Ep.
+  - destruct (kind_eqb (o_kind ch) KLink && (negb match rest with [] => true | _ => false end || follow)).
+    + destruct links; [discriminate|apply IH].
+    + destruct rest; [discriminate|apply IH].
+  - destruct rest; [|discriminate]. intros [= <-]. exact Ep.
+Qed.
+Lemma walk_add f q o fl : fs_get f q = None -> (o_kind o <> KLink \/ fl = false) ->
+  forall fuel links canon todo,
+  walk fuel links f canon todo false = WMissing q -> walk fuel links (fs_set f q o) canon todo fl = WFound q o.
+Proof.
+  intros Hq Ho. induction fuel as [|fuel IH]; intros links canon todo; cbn [walk]; [discriminate|].
+  destruct (fs_get f canon) as [cur|] eqn:Ec; [|discriminate].
+  rewrite (fs_get_set_other f q o canon cur Hq Ec).
+  destruct todo as [|c rest]; [discriminate|].
+  destruct (negb (kind_eqb (o_kind cur) KDir)); [discriminate|].
+  destruct (is_dotdot c); [apply IH|].
+  destruct (fs_get f (canon ++ [c])) as [ch|] eqn:Ep.
+  - rewrite (fs_get_set_other f q o _ ch Hq Ep).
+    destruct rest as [|c2 rest].
+    + cbn [negb orb]. rewrite andb_false_r. discriminate.
+    + cbn [negb orb]. destruct (kind_eqb (o_kind ch) KLink && true).
+      * destruct links; [discriminate|apply IH].
+      * apply IH.
+  - destruct rest; [|discriminate]. intros [= <-]. rewrite fs_get_set, path_eqb_refl. cbn [negb orb].
+    assert (E : kind_eqb (o_kind o) KLink && fl = false).
+    { destruct Ho as [Ho| ->]; [|apply andb_false_r]. destruct (o_kind o); try reflexivity. exfalso. apply Ho. reflexivity. }
+    rewrite E. reflexivity.
+Qed.
+Lemma walk_more_fuel f follow : forall fuel fuel' links canon todo r,
+  walk fuel links f canon todo follow = r -> r <> WErr EFUEL -> (fuel <= fuel')%nat ->
+  walk fuel' links f canon todo follow = r.
+Proof.
+  induction fuel as [|fuel IH]; intros fuel' links canon todo r; cbn [walk]; [intros <- F; contradiction|].
+  intros H Hr Hle. destruct fuel' as [|fuel']; [lia|]. cbn [walk].
+  destruct (fs_get f canon) as [cur|] eqn:Ec; [|exact H].
+  destruct todo as [|c rest]; [exact H|].
+  destruct (negb (kind_eqb (o_kind cur) KDir)); [exact H|].
+  destruct (is_dotdot c); [apply (IH fuel' _ _ _ _ H Hr); lia|].
+  destruct (fs_get f (canon ++ [c])) as [ch|] eqn:Ep; [|exact H].
+  destruct (kind_eqb (o_kind ch) KLink && (negb match rest with [] => true | _ => false end || follow)).
+  - destruct links; [exact H|apply (IH fuel' _ _ _ _ H Hr); lia].
+  - destruct rest; [exact H|apply (IH fuel' _ _ _ _ H Hr); lia].
+Qed.
+Lemma resolve_add f q o p fl : (o_kind o <> KLink \/ fl = false) ->
+  resolve f p false = WMissing q -> resolve (fs_set f q o) p fl = WFound q o.
+Proof.
+  intros Ho R. pose proof (walk_missing_get _ _ _ _ _ _ _ R) as Hq. unfold resolve in *.
+  apply (walk_more_fuel _ _ (walk_fuel f p)).
+  - apply walk_add; assumption.
+  - discriminate.
+  - unfold walk_fuel, fs_set. rewrite (fs_del_absent f q Hq). unfold max_target_comps. cbn [fold_right]. lia.
+Qed.
+
+Lemma touch_shape t : keeps_shape (fun o => {| o_kind := o_kind o; o_perm := o_perm o; o_uid := o_uid o; o_gid := o_gid o; o_mtime := t;
+                           o_size := o_size o; o_data := o_data o; o_dsize := o_dsize o; o_ddata := o_ddata o;
+                           o_target := o_target o |}).
+Proof. intros o. split; reflexivity. Qed.
+Lemma resolve_touch f d t p fl q o : resolve f p fl = WFound q o -> exists o', resolve (touch f d t) p fl = WFound q o'.
+Proof. intros R. unfold touch. rewrite resolve_upd by apply touch_shape. rewrite R. cbn [upd_res]. eexists. reflexivity. Qed.
+
+(* Mkdir then Chown of the same path, Symlink then Lchown of the same path: the second call finds the new object *)
+Lemma be_mkdir_then_chown f p perm t u g :
+  snd (be_mkdir f p perm t) = Ok tt -> snd (be_chown (fst (be_mkdir f p perm t)) p u g) = Ok tt.
+Proof.
+  unfold be_mkdir. destruct (resolve f p false) as [q o|q|e] eqn:R; cbn [fst snd]; try discriminate. intros _.
+  assert (Ho : o_kind (mk_dir (N.land perm 511) t) <> KLink \/ true = false) by (left; discriminate).
+  pose proof (resolve_add f q (mk_dir (N.land perm 511) t) p true Ho R) as R1.
+  destruct (resolve_touch _ (parent q) t p true q _ R1) as [o' R'].
+  unfold be_chown. rewrite (be_meta_found _ _ _ _ _ _ R'). reflexivity.
+Qed.
+Lemma be_symlink_then_lchown f tg p t u g :
+  snd (be_symlink f tg p t) = Ok tt -> snd (be_lchown (fst (be_symlink f tg p t)) p u g) = Ok tt.
+Proof.
+  unfold be_symlink. destruct (resolve f p false) as [q o|q|e] eqn:R; cbn [fst snd]; try discriminate. intros _.
+  assert (Ho : o_kind (mk_link tg t) <> KLink \/ false = false) by (right; reflexivity).
+  pose proof (resolve_add f q (mk_link tg t) p false Ho R) as R1.
+  destruct (resolve_touch _ (parent q) t p false q _ R1) as [o' R'].
+  unfold be_lchown. rewrite (be_meta_found _ _ _ _ _ _ R'). reflexivity.
+Qed.
+
+Lemma step_mkdir_eq s c h n sa : str_ok n = true -> step s c (RMkdir h n sa) = handle_mkdir (clear_log s) c h n sa.
+Proof. intros H. unfold step. cbn [garbage_reply]. rewrite H. reflexivity. Qed.
+
+(* MKDIR: on NFS3_OK the Chown with the effective ids is in the log, it found the new directory, and Stat of
+   the new path reports them (the handler itself ignores Chown's result) *)
+Lemma step_mkdir_owner s c h (n : name) sa d da :
+  str_ok n = true -> lookup_node s h = Some (d, da) ->
+  let r := step s c (RMkdir h n sa) in
+  let u := eff_uid c true sa in
+  let g := eff_gid c true sa in
+  ob_status (snd r) = st_ok ->
+  In (bc2 BChown (d ++ [n]) [] u g) (blog (fst r)) /\
+  exists fi, be_stat (fs (fst r)) (d ++ [n]) true = Ok fi /\ fi_uid fi = u /\ fi_gid fi = g.
+Proof.
+  intros Hs Hl. cbv zeta. rewrite step_mkdir_eq by exact Hs. unfold handle_mkdir.
+  destruct (ro (conf (clear_log s))); [intros F; exfalso; revert F; vm_compute; discriminate|].
+  destruct (negb (validate_name n =? st_ok)) eqn:Hn.
+  { intros F. exfalso. apply negb_true_iff, N.eqb_neq in Hn. exact (Hn F). }
+  cbv zeta. fold (eff_uid c true sa). fold (eff_gid c true sa).
+  match goal with |- context [if ?b then (_, fail_wcc NFSERR_INVAL) else _] => destruct b end;
+    [intros F; exfalso; revert F; vm_compute; discriminate|].
+  change (lookup_node (clear_log s) h) with (lookup_node s h). rewrite Hl.
+  destruct (negb (kind_eqb (na_kind da) KDir)); [intros F; exfalso; revert F; vm_compute; discriminate|].
+  destruct (getattr_h (clear_log s) h d) as [s1 pre].
+  destruct pre as [dpre|e1]; [|intros F; exfalso; exact (map_error_nonzero _ F)].
+  unfold lift_unit. cbn [fst snd].
+  set (mode := match s_mode sa with Some m => m | None => 493 end).
+  destruct (snd (be_mkdir (fs s1) (d ++ [n]) mode (now s1))) as [u1|e2] eqn:Em.
+  2:{ intros F. exfalso.
+      match type of F with context [failed_reply ?a ?b ?c ?d ?e] => destruct (failed_reply_obs a b c d e) as [_ B] end.
+      rewrite B in F. exact (map_error_nonzero _ F). }
+  apply unit_res_ok in Em.
+  set (fm := fst (be_mkdir (fs s1) (d ++ [n]) mode (now s1))) in *.
+  set (sm := logc (with_fs s1 fm) (bc2 BMkdir (d ++ [n]) [] mode 0)).
+  change (fs sm) with fm.
+  set (sc := logc (with_fs sm (fst (be_chown fm (d ++ [n]) (eff_uid c true sa) (eff_gid c true sa))))
+                   (bc2 BChown (d ++ [n]) [] (eff_uid c true sa) (eff_gid c true sa))).
+  destruct (srv_lookup (invalidate_for_new sc d (d ++ [n])) (d ++ [n])) as [s4 lr] eqn:E4.
+  pose proof (srv_lookup_ro (invalidate_for_new sc d (d ++ [n])) (d ++ [n])) as R. rewrite E4 in R. cbn [fst] in R.
+  pose proof (MON_srv_lookup (invalidate_for_new sc d (d ++ [n])) (d ++ [n])) as M. rewrite E4 in M. cbn [fst] in M.
+  destruct lr as [a|e4]; [|intros F; exfalso; exact (map_error_nonzero _ F)].
+  intros _. split.
+  - apply MON_created_reply, M, MON_invalidate_for_new. unfold sc. cbn [blog logc]. left. reflexivity.
+  - rewrite (RO_fs _ _ (created_reply_ro s4 h d (d ++ [n]) a dpre)), (RO_fs _ _ R), invalidate_for_new_fs.
+    unfold sc. cbn [fs logc with_fs].
+    apply be_meta_chown_stat. apply (be_mkdir_then_chown (fs s1) (d ++ [n]) mode (now s1)). exact Em.
+Qed.
+
+Lemma step_symlink_eq s c h n sa t :
+  str_ok n = true -> str_ok t = true -> step s c (RSymlink h n sa t) = handle_symlink (clear_log s) c h n sa t.
+Proof. intros H1 H2. unfold step. cbn [garbage_reply]. rewrite H1, H2. reflexivity. Qed.
+
+(* SYMLINK: on NFS3_OK the Lchown with the effective ids is in the log, it found the new link, and Lstat of
+   the new path reports them *)
+Lemma step_symlink_owner s c h (n : name) sa t d da :
+  str_ok n = true -> str_ok t = true -> lookup_node s h = Some (d, da) ->
+  let r := step s c (RSymlink h n sa t) in
+  let u := eff_uid c true sa in
+  let g := eff_gid c true sa in
+  ob_status (snd r) = st_ok ->
+  In (bc2 BLchown (d ++ [n]) [] u g) (blog (fst r)) /\
+  exists fi, be_stat (fs (fst r)) (d ++ [n]) false = Ok fi /\ fi_uid fi = u /\ fi_gid fi = g.
+Proof.
+  intros Hs Ht Hl. cbv zeta. rewrite step_symlink_eq by assumption. unfold handle_symlink.
+  destruct (ro (conf (clear_log s))); [intros F; exfalso; revert F; vm_compute; discriminate|].
+  destruct (negb (validate_name n =? st_ok)) eqn:Hn.
+  { intros F. exfalso. apply negb_true_iff, N.eqb_neq in Hn. exact (Hn F). }
+  destruct t as [|t0 t']; [intros F; exfalso; revert F; vm_compute; discriminate|]. set (t := t0 :: t') in *.
+  destruct (is_abs t || target_has_dotdot t); [intros F; exfalso; revert F; vm_compute; discriminate|].
+  change (lookup_node (clear_log s) h) with (lookup_node s h). rewrite Hl.
+  destruct (negb (kind_eqb (na_kind da) KDir)); [intros F; exfalso; revert F; vm_compute; discriminate|].
+  destruct (getattr_h (clear_log s) h d) as [s1 pre].
+  destruct pre as [dpre|e1]; [|intros F; exfalso; exact (map_error_nonzero _ F)].
+  destruct (negb (sanitize_ok d n)).
+  { intros F. exfalso. destruct (failed_reply_obs s1 h d NFSERR_IO dpre) as [_ B]. rewrite B in F. revert F. vm_compute. discriminate. }
+  cbv zeta. fold (eff_uid c true sa). fold (eff_gid c true sa).
+  unfold lift_unit. cbn [fst snd].
+  destruct (snd (be_symlink (fs s1) t (d ++ [n]) (now s1))) as [u1|e2] eqn:Em.
+  2:{ intros F. exfalso.
+      match type of F with context [failed_reply ?a ?b ?c ?d ?e] => destruct (failed_reply_obs a b c d e) as [_ B] end.
+      rewrite B in F. exact (map_error_nonzero _ F). }
+  apply unit_res_ok in Em.
+  set (fm := fst (be_symlink (fs s1) t (d ++ [n]) (now s1))) in *.
+  set (sm := logc (with_fs s1 fm) (bc2 BSymlink (d ++ [n]) t 0 0)).
+  destruct (srv_lookup (invalidate_for_new sm d (d ++ [n])) (d ++ [n])) as [s2 lr] eqn:E2.
+  pose proof (srv_lookup_ro (invalidate_for_new sm d (d ++ [n])) (d ++ [n])) as R. rewrite E2 in R. cbn [fst] in R.
+  destruct lr as [a|e4].
+  2:{ intros F. exfalso.
+      match type of F with context [failed_reply ?a ?b ?c ?d ?e] => destruct (failed_reply_obs a b c d e) as [_ B] end.
+      rewrite B in F. exact (map_error_nonzero _ F). }
+  intros _.
+  assert (F2 : fs s2 = fm) by (rewrite (RO_fs _ _ R), invalidate_for_new_fs; reflexivity).
+  rewrite F2.
+  set (sc := logc (with_fs s2 (fst (be_lchown fm (d ++ [n]) (eff_uid c true sa) (eff_gid c true sa))))
+                   (bc2 BLchown (d ++ [n]) [] (eff_uid c true sa) (eff_gid c true sa))).
+  split.
+  - apply MON_created_reply. unfold sc. cbn [blog logc]. left. reflexivity.
+  - rewrite (RO_fs _ _ (created_reply_ro sc h d (d ++ [n]) a dpre)).
+    unfold sc. cbn [fs logc with_fs].
+    apply be_meta_chown_stat. apply (be_symlink_then_lchown (fs s1) t (d ++ [n]) (now s1)). exact Em.
+Qed.
+
+(* ---------- the backend: only Chown / Lchown change the owner or group of an object ---------- *)
+(* every object of f' sits where an object with the same owner and group sat in f, or is new and owned 0:0 *)
+Definition owner_kept (f f' : fsmap) : Prop :=
+  forall q o', fs_get f' q = Some o' ->
+    (exists o, fs_get f q = Some o /\ o_uid o' = o_uid o /\ o_gid o' = o_gid o) \/
+    (fs_get f q = None /\ o_uid o' = 0 /\ o_gid o' = 0).
+Definition keeps_owner (g : obj -> obj) : Prop := forall o, o_uid (g o) = o_uid o /\ o_gid (g o) = o_gid o.
+
+Lemma owner_kept_refl f : owner_kept f f.
+Proof. intros q o H. left. exists o. auto. Qed.
+Lemma owner_kept_upd f f1 k g : owner_kept f f1 -> keeps_owner g -> owner_kept f (fs_upd f1 k g).
+Proof.
+  intros A G q o'. rewrite fs_get_upd'. destruct (fs_get f1 q) as [o1|] eqn:E; cbn [option_map]; [|discriminate].
+  intros [= <-]. assert (I : o_uid (if path_eqb q k then g o1 else o1) = o_uid o1 /\ o_gid (if path_eqb q k then g o1 else o1) = o_gid o1).
+  { destruct (path_eqb q k); [apply G|split; reflexivity]. }
+  destruct I as [I1 I2]. rewrite I1, I2. apply (A q o1 E).
+Qed.
+Lemma owner_kept_set f q o : fs_get f q = None -> o_uid o = 0 -> o_gid o = 0 -> owner_kept f (fs_set f q o).
+Proof.
+  intros Hq U G p o'. rewrite fs_get_set. destruct (path_eqb p q) eqn:E.
+  - apply path_eqb_eq in E. subst p. intros [= <-]. right. auto.
+  - intros H. left. exists o'. auto.
+Qed.
+Lemma owner_kept_del f q : owner_kept f (fs_del f q).
+Proof. intros p o'. rewrite fs_get_del. destruct (path_eqb p q); [discriminate|]. intros H. left. exists o'. auto. Qed.
+
+Lemma touch_owner t : keeps_owner (fun o => {| o_kind := o_kind o; o_perm := o_perm o; o_uid := o_uid o; o_gid := o_gid o; o_mtime := t;
+                           o_size := o_size o; o_data := o_data o; o_dsize := o_dsize o; o_ddata := o_ddata o;
+                           o_target := o_target o |}).
+Proof. intros o. split; reflexivity. Qed.
+Lemma owner_kept_touch f f1 d t : owner_kept f f1 -> owner_kept f (touch f1 d t).
+Proof. intros A. unfold touch. apply owner_kept_upd; [exact A|apply touch_owner]. Qed.
+
+Lemma be_mkdir_owner f p perm t : owner_kept f (fst (be_mkdir f p perm t)).
+Proof.
+  unfold be_mkdir. destruct (resolve f p false) as [q o|q|e] eqn:R; cbn [fst]; try apply owner_kept_refl.
+  apply owner_kept_touch, owner_kept_set; [apply (walk_missing_get _ _ _ _ _ _ _ R)|reflexivity|reflexivity].
+Qed.
+Lemma be_symlink_owner f tg p t : owner_kept f (fst (be_symlink f tg p t)).
+Proof.
+  unfold be_symlink. destruct (resolve f p false) as [q o|q|e] eqn:R; cbn [fst]; try apply owner_kept_refl.
+  apply owner_kept_touch, owner_kept_set; [apply (walk_missing_get _ _ _ _ _ _ _ R)|reflexivity|reflexivity].
+Qed.
+Lemma be_create_owner f p t : owner_kept f (fst (be_create f p t)).
+Proof.
+  unfold be_create. destruct (resolve f p true) as [q o|q|e] eqn:R; cbn [fst]; try apply owner_kept_refl.
+  - destruct (o_kind o); cbn [fst]; try apply owner_kept_refl.
+    apply owner_kept_upd; [apply owner_kept_refl|]. intros x. split; reflexivity.
+  - apply owner_kept_touch, owner_kept_set; [apply (walk_missing_get _ _ _ _ _ _ _ R)|reflexivity|reflexivity].
+Qed.
+Lemma be_meta_owner f p follow g : keeps_owner g -> owner_kept f (fst (be_meta f p follow g)).
+Proof.
+  intros G. unfold be_meta. destruct (resolve f p follow); cbn [fst]; try apply owner_kept_refl.
+  apply owner_kept_upd; [apply owner_kept_refl|exact G].
+Qed.
+Lemma be_chmod_owner f p m : owner_kept f (fst (be_chmod f p m)).
+Proof. apply be_meta_owner. intros o. split; reflexivity. Qed.
+Lemma be_chtimes_owner f p m : owner_kept f (fst (be_chtimes f p m)).
+Proof. apply be_meta_owner. intros o. split; reflexivity. Qed.
+Lemma be_truncate_owner f p sz t : owner_kept f (fst (be_truncate f p sz t)).
+Proof.
+  unfold be_truncate. destruct (resolve f p true) as [q o|q|e]; cbn [fst]; try apply owner_kept_refl.
+  destruct (o_kind o); cbn [fst]; try apply owner_kept_refl;
+    (destruct (sz <? 0)%Z; cbn [fst]; [apply owner_kept_refl|]; apply owner_kept_upd; [apply owner_kept_refl|]; intros x; split; reflexivity).
+Qed.
+Lemma be_writeat_owner f q off bs t : owner_kept f (fst (be_writeat f q off bs t)).
+Proof.
+  unfold be_writeat. destruct (fs_get f q) as [o|] eqn:E; cbn [fst]; [|apply owner_kept_refl].
+  destruct (o_kind o); cbn [fst]; try apply owner_kept_refl.
+  match goal with |- context [if ?b then _ else _] => destruct b end; cbn [fst]; [apply owner_kept_refl|].
+  intros p o'. rewrite fs_get_upd. destruct (path_eqb p q) eqn:Ep.
+  - apply path_eqb_eq in Ep. subst p. rewrite E. cbn [option_map]. intros [= <-]. left. exists o. auto.
+  - intros H. left. exists o'. auto.
+Qed.
+Lemma be_sync_owner f q : owner_kept f (be_sync f q).
+Proof. unfold be_sync. apply owner_kept_upd; [apply owner_kept_refl|]. intros o. destruct (o_kind o); split; reflexivity. Qed.
+Lemma be_remove_owner f p t : owner_kept f (fst (be_remove f p t)).
+Proof.
+  unfold be_remove. destruct (resolve f p false) as [q o|q|e]; cbn [fst]; try apply owner_kept_refl.
+  destruct q as [|c q']; cbn [fst]; [apply owner_kept_refl|].
+  match goal with |- context [if ?b then _ else _] => destruct b end; cbn [fst]; [apply owner_kept_refl|].
+  apply owner_kept_touch, owner_kept_del.
+Qed.
+(* Rename moves objects together with their owner and group *)
+Lemma fs_get_In f q o : fs_get f q = Some o -> exists k, In (k, o) f.
+Proof.
+  induction f as [|[k x] r IH]; cbn [fs_get]; [discriminate|].
+  destruct (path_eqb q k); [intros [= <-]; exists k; left; reflexivity|].
+  intros H. destruct (IH H) as [k' I]. exists k'. right. exact I.
+Qed.
+Lemma In_upd f k g q o' : In (q, o') (fs_upd f k g) -> exists o, In (q, o) f /\ (o' = o \/ o' = g o).
+Proof.
+  unfold fs_upd. intros H. apply in_map_iff in H. destruct H as [[k0 x] [E I]]. cbn [fst snd] in E.
+  destruct (path_eqb k k0); injection E as <- <-; exists x; auto.
+Qed.
+Lemma be_rename_owner f a b t : forall q o', In (q, o') (fst (be_rename f a b t)) ->
+  exists q0 o, In (q0, o) f /\ o_uid o' = o_uid o /\ o_gid o' = o_gid o.
+Proof.
+  assert (Same : forall q o', In (q, o') f -> exists q0 o, In (q0, o) f /\ o_uid o' = o_uid o /\ o_gid o' = o_gid o).
+  { intros q o' H. exists q, o'. auto. }
+  assert (Mv : forall oc nc f1, (forall e, In e f1 -> In e f) -> forall q o',
+     In (q, o') (touch (touch (map (fun e => if is_prefix oc (fst e) then (rekey oc nc (fst e), snd e) else e) f1) (parent oc) t) (parent nc) t) ->
+     exists q0 o, In (q0, o) f /\ o_uid o' = o_uid o /\ o_gid o' = o_gid o).
+  { intros oc nc f1 Sub q o' H. unfold touch in H.
+    apply In_upd in H. destruct H as (o1 & H & E1). apply In_upd in H. destruct H as (o2 & H & E2).
+    apply in_map_iff in H. destruct H as [[k0 x] [E I]]. cbn [fst snd] in E.
+    assert (X : x = o2) by (destruct (is_prefix oc k0); injection E as _ <-; reflexivity). subst x.
+    exists k0, o2. split; [apply Sub; exact I|].
+    destruct E1 as [-> | ->]; destruct E2 as [-> | ->]; split; reflexivity. }
+  unfold be_rename. destruct (resolve f a false) as [oc o|q|e]; cbn [fst]; try exact Same.
+  destruct oc as [|c0 oc']; cbn [fst]; [exact Same|]. set (oc := c0 :: oc').
+  destruct (resolve f b false) as [nc m|nc|e]; cbn [fst]; try exact Same.
+  - destruct nc as [|c1 nc']; cbn [fst]; [exact Same|]. set (nc := c1 :: nc').
+    repeat (match goal with |- context [if ?b then _ else _] => destruct b end; cbn [fst]; [exact Same|]).
+    apply Mv. intros e H. unfold fs_del in H. apply filter_In in H. tauto.
+  - match goal with |- context [if ?b then _ else _] => destruct b end; cbn [fst]; [exact Same|].
+    apply Mv. auto.
+Qed.
+
+(* ---------- non-root callers: the new object is the caller's ---------- *)
+Lemma step_create_owner_nonroot s c h (n : name) how sa d da e :
+  c_uid c <> 0 -> str_ok n = true -> lookup_node s h = Some (d, da) -> be_stat (fs s) (d ++ [n]) false = Err e ->
+  let r := step s c (RCreate h n how sa) in
+  ob_status (snd r) = st_ok ->
+  exists fi, be_stat (fs (fst r)) (d ++ [n]) true = Ok fi /\ fi_uid fi = c_uid c /\ fi_gid fi = c_gid c.
+Proof.
+  intros Hnr Hs Hl Hp. cbv zeta. intros Hok.
+  destruct (step_create_owner s c h n how sa d da e Hs Hl Hp Hok) as [_ (fi & A & B & C)].
+  rewrite eff_uid_nonroot in B by exact Hnr. rewrite eff_gid_nonroot in C by exact Hnr. exists fi. auto.
+Qed.
+Lemma step_mkdir_owner_nonroot s c h (n : name) sa d da :
+  c_uid c <> 0 -> str_ok n = true -> lookup_node s h = Some (d, da) ->
+  let r := step s c (RMkdir h n sa) in
+  ob_status (snd r) = st_ok ->
+  exists fi, be_stat (fs (fst r)) (d ++ [n]) true = Ok fi /\ fi_uid fi = c_uid c /\ fi_gid fi = c_gid c.
+Proof.
+  intros Hnr Hs Hl. cbv zeta. intros Hok.
+  destruct (step_mkdir_owner s c h n sa d da Hs Hl Hok) as [_ (fi & A & B & C)].
+  rewrite eff_uid_nonroot in B by exact Hnr. rewrite eff_gid_nonroot in C by exact Hnr. exists fi. auto.
+Qed.
+Lemma step_symlink_owner_nonroot s c h (n : name) sa t d da :
+  c_uid c <> 0 -> str_ok n = true -> str_ok t = true -> lookup_node s h = Some (d, da) ->
+  let r := step s c (RSymlink h n sa t) in
+  ob_status (snd r) = st_ok ->
+  exists fi, be_stat (fs (fst r)) (d ++ [n]) false = Ok fi /\ fi_uid fi = c_uid c /\ fi_gid fi = c_gid c.
+Proof.
+  intros Hnr Hs Ht Hl. cbv zeta. intros Hok.
+  destruct (step_symlink_owner s c h n sa t d da Hs Ht Hl Hok) as [_ (fi & A & B & C)].
+  rewrite eff_uid_nonroot in B by exact Hnr. rewrite eff_gid_nonroot in C by exact Hnr. exists fi. auto.
+Qed.
